@@ -15,6 +15,11 @@ import (
 // C19 — state survives export and re-import; zero-height export returns all escrow.
 
 func init() {
+	probeGens["C19"] = func(t *rapid.T, g *GenState) string { return "export" }
+	probes["C19"] = func(ex *Exec, payload string) []Violation {
+		ex.O.(*passive).hit("mid_history_export_point")
+		return exportImport(ex)
+	}
 	trailers["C19"] = func(t *rapid.T, ex *Exec, g *GenState) ([]Violation, string) {
 		return exportImport(ex), "export"
 	}
@@ -118,6 +123,29 @@ func exportImport(ex *Exec) []Violation {
 		if rc.State != stPaused || rc.BatchState != types.BATCHCOMPLETED || rc.BatchRequestCount != 0 || rc.BatchResponseCount != 0 {
 			fail("prep_contexts", "context %s after preparation: state %s, batch state %s, counts %d/%d", short(cid), stateName(rc.State), rc.BatchState, rc.BatchRequestCount, rc.BatchResponseCount)
 			break
+		}
+		// state survives: apart from the documented reset nothing of the context changes
+		want, ok := pre.Ctxs[cid]
+		if !ok {
+			fail("prep_contexts", "context %s appeared during preparation", short(cid))
+			break
+		}
+		want.State, want.BatchState, want.BatchRequestCount, want.BatchResponseCount = stPaused, types.BATCHCOMPLETED, 0, 0
+		if string(w.app.AppCodec().MustMarshalBinaryBare(&want)) != string(w.app.AppCodec().MustMarshalBinaryBare(&rc)) {
+			fail("prep_contexts_changed", "preparation changed context %s beyond pausing it and clearing its batch: before %v, after %v", short(cid), want, rc)
+			break
+		}
+	}
+	if len(post.Ctxs) != len(pre.Ctxs) {
+		fail("prep_contexts", "preparation changed the number of contexts from %d to %d", len(pre.Ctxs), len(post.Ctxs))
+	}
+	if fmt.Sprint(sortedKeys(pre.Binds)) != fmt.Sprint(sortedKeys(post.Binds)) || fmt.Sprint(sortedKeys(pre.Defs)) != fmt.Sprint(sortedKeys(post.Defs)) {
+		fail("prep_content", "preparation changed the set of definitions or bindings")
+	}
+	for _, bk := range sortedKeys(pre.Binds) {
+		a, b := pre.Binds[bk], post.Binds[bk]
+		if string(w.app.AppCodec().MustMarshalBinaryBare(&a)) != string(w.app.AppCodec().MustMarshalBinaryBare(&b)) {
+			fail("prep_content", "preparation changed binding %s", bk)
 		}
 	}
 	if len(vs) > 0 {
